@@ -44,14 +44,23 @@ def representatives():
     return cases
 
 
-def check_axis(case, n_months, res, loads, ref):
+def check_axis(case, n_months, res, loads, ref, hl=None, c1=None):
     res["evals"] += 1
-    c1 = dict(case, horizon=n_months)
+    c1 = c1 or dict(case, horizon=n_months)
+    if hl is None:
+        try:
+            hl = hybrid.make_hybrid(loads, n_months)
+        except Exception as e:  # noqa: BLE001
+            res["violations"].append(core.viol("hybrid_load_raised", c1, msg=f"HybridLoad raised {type(e).__name__}: {e}", exc=type(e).__name__))
+            return
     try:
-        hl = hybrid.make_hybrid(loads, n_months)
-    except Exception as e:  # noqa: BLE001
-        res["violations"].append(core.viol("hybrid_load_raised", c1, msg=f"HybridLoad raised {type(e).__name__}: {e}", exc=type(e).__name__))
-        return
+        _check_axis_body(c1, n_months, res, ref, hl)
+    except (IndexError, KeyError) as e:
+        res["violations"].append(core.viol("hybrid_load_malformed", c1, msg=f"horizon {n_months}: the hybrid load's arrays do not cover the horizon ({type(e).__name__}: {e}); "
+                                                                           f"end_month={getattr(hl, 'end_month', None)}, {len(hl.hour)} breakpoints", exc=type(e).__name__))
+
+
+def _check_axis_body(c1, n_months, res, ref, hl):
     hour = [float(h) for h in hl.hour]
     ends = LG.month_end_hours(n_months)
 
@@ -117,8 +126,28 @@ def check_axis(case, n_months, res, loads, ref):
         pos = end_idx + 1
 
 
+def run_via_ghe(case, res):
+    """the hybrid loads as real GHE objects build them, for a sequence of horizons in one process (same loads, same borehole)"""
+    from vf import ghe_factory
+
+    base = {k: v for k, v in case.items() if k not in ("via_ghe", "sequence")}
+    loads = c06.profile_of(base)
+    ref = LG.monthly_reference(loads)
+    coords = [(0.0, 0.0), (0.0, 5.0), (5.0, 0.0), (5.0, 5.0)]
+    for k, n in enumerate(case["sequence"]):
+        gf = ghe_factory.table_gfunction(coords, 5.0, [60.0, 97.5, 135.0], 0.075)
+        ghe = ghe_factory.make_ghe(coords, H=97.5, loads=loads, months=n, gfunc=gf)
+        check_axis(base, n, res, loads, ref, hl=ghe.hybrid_load, c1=dict(case, sequence=case["sequence"][:k + 1]))
+    res["nontrivial"] += 1
+    res.outcome("via_ghe_sequences")
+    res["sample"] = dict(case)
+
+
 def run_case(case):
     res = core.Result(evals=0)
+    if case.get("via_ghe"):
+        run_via_ghe(case, res)
+        return res
     loads = c06.profile_of(case)
     ref = LG.monthly_reference(loads)
     hs = [case["horizon"]] if "horizon" in case else case["horizons"]
@@ -143,11 +172,16 @@ def main(run: core.Run, only=None):
             for lo in range(1, 361, 20):
                 cases.append(dict(c, horizons=list(range(lo, min(361, lo + 20)))))
     run.drive(cases, family="axis")
+    via = []
+    for c in (reps[1], reps[8], reps[15], reps[16]) if run.tier == "quick" else reps[::2]:
+        for seq in ([240, 360, 30], [12, 24, 12], [37, 13, 1]):
+            via.append(dict(c, via_ghe=True, sequence=seq))
+    run.drive(via, family="via-ghe-sequences")
     return run.finish(
-        rule="22 representative profiles x horizons (quick: 14 horizons; thorough: every horizon 1..360); one evaluation = one "
+        rule="family via-ghe-sequences: the hybrid loads built by real GHE objects for sequences of horizons in one process; family axis: 22 representative profiles x horizons (quick: 14 horizons; thorough: every horizon 1..360); one evaluation = one "
              "HybridLoad whose hour axis is checked; non-trivial = horizon not a multiple of 12",
         bounds={"profiles": len(reps), "horizons": QUICK_H if run.tier == "quick" else "1..360"},
         assumptions=["non-leap 8760-hour years", "peak windows are rebuilt from the reported durations and the input profile's own "
                      "peak days; months whose windows overlap each other or a month boundary are counted, not asserted for ordering"],
-        require_outcomes=("horizon_not_multiple_of_12",),
+        require_outcomes=("horizon_not_multiple_of_12", "via_ghe_sequences"),
     )
